@@ -1035,3 +1035,63 @@ Proof.
   destruct (Ib t Ht) as [_ Bt]. destruct (Ib u Hu) as [_ Bu].
   destruct (Bt k Hkt) as [_ A1]. destruct (Bu k Hku) as [_ A2]. congruence.
 Qed.
+
+(* Outside the interface the soundness argument of try_lock_checking breaks (ABA on the value
+   of lk): push_back reads head_ = &sentinel_latch_ while the list is latched, the list is
+   unlatched (its check of sentinel_.self passes) and latched again, and the CAS succeeds on the
+   latched list: the node is pushed, the latch is silently lost (head_ -> n0 although the list
+   was latched last), sentinel_latch_.self is stale.  No crash, every thread finishes. *)
+Theorem try_lock_checking_aba_outside_interface :
+  exists sched,
+    let s := final 1 [[B 0]; [D; U; D]] sched in
+    quiescent s = true /\ crash s = false /\
+    l_alatch (lst s 0) = true /\ l_head (lst s 0) = PNode 0 /\ l_lself (lst s 0) = Some (LHead 0).
+Proof.
+  exists [0;0;0; 1;1;1;1; 0; 1;1;1;1; 0; 1;1;1;1; 0;0;0;0]. vm_compute. repeat split.
+Qed.
+
+(* ------------------------------------------------------------------------------------------ *)
+(* SUMMARY - what is proved, and at which generality.
+
+   PARAMETRIC (all numbers of nodes and threads, all programs over the operations, all schedules):
+     lock_discipline / lock_exclusive   (1c) the lock word of every link agrees with the program
+                                        points; a link is never held by two threads; held links
+                                        are links of the memory; no self-deadlock on a link.
+     no_access_after_hand_back_refuted, no_access_after_hand_back_refuted_event   (5) witnesses.
+     empty_linearizable_refuted         empty() is not linearisable (its guarantee is the flag
+                                        embad, see AtomicListDefs.v).
+
+   PER INSTANCE (14 programs of 3-4 threads over 2-3 nodes, list [instances]; the COMPLETE
+   reachable set of each is computed in Coq, proved closed under step, and the predicates are
+   evaluated on every member - a complete invariant of that instance, valid for every schedule,
+   but NOT a statement about all programs):
+     structure_partial    (1)   accounting_partial  (2,3)   refinement_partial  (4)
+     progress_partial     (6)   no_null_link_partial
+
+   NOT PROVED - the parametric statements these stand for (kept here as the goal):
+
+   Theorem structure : forall nn progs sched,
+     interface_ok progs ->                       (* a node is pushed by one thread; push_back is not
+                                                    mixed with latch_and_drain *)
+     struct_ok (fst (run step sched (init nn progs, []))) = true.
+   Theorem accounting : forall nn progs sched, interface_ok progs ->
+     account_ok (fst (run step sched (init nn progs, []))) = true.
+   Theorem refinement : forall nn progs sched, interface_ok progs ->
+     refine_ok (fst (run step sched (init nn progs, []))) = true.
+   Theorem progress : forall nn progs sched, interface_ok progs ->
+     progress_ok (fst (run step sched (init nn progs, []))) = true.
+
+   What is missing for them: an inductive invariant with one assertion per program point about
+   the links the thread holds (values, and WHICH objects' self fields name them), the ownership
+   discipline "the lock of L protects L's pointer and the self field of its target" as the
+   rely/guarantee between threads, and - the hard part - the soundness of try_lock_checking:
+   when its CAS succeeds in push_back / latch_and_drain, the monitored sentinel_.self still names
+   the link.  That needs a history argument (the value seen unlocked before the last check of
+   `monitored` cannot recur once `monitored` moved away: nodes are pushed once, chains only
+   move from the shared list to a target list) and is FALSE without the interface restrictions:
+   with push_back on a latchable list the value &sentinel_latch_ recurs in head_ and the CAS
+   succeeds on a latched list (sentinel_.self = nullptr); with re-used node storage a re-pushed
+   predecessor recurs (the ABA of finding (5)).  try_remove is immune: it re-reads item.self
+   after the lock is taken.
+   The instances above include every pair of operations of the two usage profiles racing on
+   1-3 nodes, which is where these arguments are exercised. *)
